@@ -233,6 +233,12 @@ func mockCatalogue() []mockCase {
 		r := &validate.FieldRules{Type: &validate.FieldRules_Int64{Int64: &validate.Int64Rules{GreaterThan: &validate.Int64Rules_Gte{Gte: 3}, LessThan: &validate.Int64Rules_Lte{Lte: 9}}}}
 		return mockFile(pkg, []*spec.Field{spec.F("level", 1, spec.Int64).With(func(a *spec.Ann) { a.Examples = []string{"3", "9"}; a.Rules = r })})
 	}})
+	out = append(out, mockCase{ID: "mock/examples/int-rules/in+int64number", Examples: map[string][]string{"tier_limit": {"1024", "4096"}, "level": {"7"}}, ExKind: map[string]string{"tier_limit": "int", "level": "int"}, Build: func(pkg string) *spec.File {
+		in := &validate.FieldRules{Type: &validate.FieldRules_Int64{Int64: &validate.Int64Rules{In: []int64{1024, 4096}}}}
+		cn := &validate.FieldRules{Type: &validate.FieldRules_Int64{Int64: &validate.Int64Rules{Const: proto.Int64(7)}}}
+		return mockFile(pkg, []*spec.Field{spec.F("tier_limit", 1, spec.Int64).JSONAs("tier_limit").With(func(a *spec.Ann) { a.Examples = []string{"1024", "4096"}; a.Rules = in; a.Int64Enc = 2 }),
+			spec.F("level", 2, spec.Int64).With(func(a *spec.Ann) { a.Examples = []string{"7"}; a.Rules = cn; a.Int64Enc = 2 }), spec.F("name", 3, spec.String)})
+	}})
 	// a request type with rules: rejected requests followed by valid ones on the same mock
 	out = append(out, mockCase{ID: "mock/request-rules/invalid-then-valid", Examples: map[string][]string{"title": {"t1", "t2"}}, ExKind: map[string]string{"title": "string"},
 		Seq: []mockReq{{`{"id":"a"}`, false}, {`{"id":"abcd"}`, true}, {`{"id":""}`, false}, {`{"id":"wxyz"}`, true}, {`{"id":"abcd"}`, true}},
